@@ -8,7 +8,7 @@ rectangle (tools/tr_styled.py; C06, C01, C02).
 
 For each case a small edit is applied to the Rust text of a SCRATCH COPY of /repo's `src` and `core/src` trees
 (/tmp/vw/styledgen-repo, removed at the end; /repo itself is never touched), the translator regenerates `StyledSrc.lean`
-from it, and the theorems of lean/EG/Props/{C06,C01,C02}/Generated.lean are re-checked against the regenerated file.
+from it, and the theorems of lean/EG/Props/{C06,C01,C02}/Generated.lean and C01/GeneratedNext.lean are re-checked against the regenerated file.
 Nothing inside the verif tree is written: the regenerated file and the recompiled .olean files live in a temp directory put
 in front of LEAN_PATH (requires an up-to-date `lake build` of the three modules, which the script runs first).
 
@@ -33,9 +33,14 @@ LEAN = os.path.join(V, "lean")
 P06 = os.path.join(LEAN, "EG", "Props", "C06", "Generated.lean")
 P01 = os.path.join(LEAN, "EG", "Props", "C01", "Generated.lean")
 P02 = os.path.join(LEAN, "EG", "Props", "C02", "Generated.lean")
+P01N = os.path.join(LEAN, "EG", "Props", "C01", "GeneratedNext.lean")
 SCRATCH = os.environ.get("STYLED_DEMO_SCRATCH", "/tmp/vw/styledgen-repo")
 PS = "src/primitives/primitive_style.rs"
 SR = "src/primitives/rectangle/styled.rs"
+
+# seeded changes that only edit the UNTRANSLATED dotted-border code of rectangle/styled.rs (the `StrokeStyle::Dotted` block of
+# `draw_styled` and the four free functions it calls: `StyledSrc.untranslated`): not seen by this tie, by construction
+SEEDS_OUT_OF_SCOPE = {"C02-r3-3", "C04-r2-3", "C07-r4-1", "C08-2"}
 
 # (name, kind, file, old text (or ("re", pattern)), new text, theorems expected to break (subset check))
 CASES = [
@@ -107,6 +112,14 @@ CASES = [
      "        Ok(())\n    }\n}\n\nimpl<C: PixelColor> StyledDimensions",
      "        target.fill_solid(&fill_area, stroke_color)?;\n        Ok(())\n    }\n}\n\nimpl<C: PixelColor> StyledDimensions",
      ["draw_styled_src_eq_model", "draw_styled_target_calls_pinned"]),
+    ("StyledPixelsIterator::next: fill and stroke colour exchanged", "mutation", SR,
+     "                self.fill_color\n            } else {\n                self.stroke_color\n",
+     "                self.stroke_color\n            } else {\n                self.fill_color\n",
+     ["StyledPixelsIterator_next_src_shape"]),
+    ("StyledPixelsIterator::next: stops at the first colourless point", "mutation", SR,
+     "                return Some(Pixel(point, color));\n            }\n",
+     "                return Some(Pixel(point, color));\n            } else {\n                return None;\n            }\n",
+     ["StyledPixelsIterator_next_src_shape"]),
     # harmless
     ("stroke_area: local renamed", "harmless", PS,
      "let offset = self.outside_stroke_width().saturating_as();\n\n        primitive.offset(offset)",
@@ -188,9 +201,9 @@ def broken_in(path, theorems, env, out_olean=None):
         for (n, l) in theorems:
             if l <= ln:
                 nm = n
-        broken.add(nm or f"{os.path.basename(os.path.dirname(path))}/Generated.lean line {ln}")
+        broken.add(nm or f"{os.path.basename(os.path.dirname(path))}/{os.path.basename(path)} line {ln}")
     if rc != 0 and not broken:
-        broken.add(f"({os.path.basename(os.path.dirname(path))}/Generated.lean does not build: {out.strip().splitlines()[0][:140] if out.strip() else rc})")
+        broken.add(f"({os.path.basename(os.path.dirname(path))}/{os.path.basename(path)} does not build: {out.strip().splitlines()[0][:140] if out.strip() else rc})")
     return broken
 
 
@@ -200,7 +213,8 @@ def main():
     if only and only[0] == "--seeds":
         only = only[1:]
         cases = seed_cases()
-    rc, out = run(["lake", "build", "EG.Props.C06.Generated", "EG.Props.C01.Generated", "EG.Props.C02.Generated"], cwd=LEAN)
+    rc, out = run(["lake", "build", "EG.Props.C06.Generated", "EG.Props.C01.Generated", "EG.Props.C02.Generated",
+                   "EG.Props.C01.GeneratedNext"], cwd=LEAN)
     if rc != 0:
         print("the unchanged tree does not build the Generated modules:\n" + out[-2000:])
         return 2
@@ -208,7 +222,7 @@ def main():
     lean_path = lean_path.strip().splitlines()[-1]
     real = [d for d in lean_path.split(":") if os.path.isdir(os.path.join(d, "EG"))][0]
     tmp = tempfile.mkdtemp(prefix="styleddemo-")
-    th6, th1, th2 = list_theorems(P06), list_theorems(P01), list_theorems(P02)
+    th6, th1, th2, th1n = list_theorems(P06), list_theorems(P01), list_theorems(P02), list_theorems(P01N)
     bad = 0
     counts = {}
     try:
@@ -283,8 +297,12 @@ def main():
                     os.symlink(os.path.join(real, "EG", "Props", "C06", "Generated.olean"), o)
                 broken |= broken_in(P01, th1, env2)
                 broken |= broken_in(P02, th2, env2)
+                broken |= broken_in(P01N, th1n, env2)
             if kind == "mutation":
                 ok = (not failed) and all(e in broken for e in expect)
+            elif kind == "seed" and name.split()[-1] in SEEDS_OUT_OF_SCOPE:
+                ok = not broken
+                counts["out of scope (dotted code, untranslated)"] = counts.get("out of scope (dotted code, untranslated)", 0) + 1
             elif kind == "seed":
                 ok = len(broken) > 0
                 counts["refused" if failed else ("caught" if ok else "missed")] = counts.get("refused" if failed else ("caught" if ok else "missed"), 0) + 1
